@@ -54,6 +54,12 @@ def extras_groups(rng: random.Random, n: int):
             if i % 2:
                 g["func"], g["dtype"] = rng.choice([r for r in cc.REDUCTIONS if r[0] in cc.ARG or r[0] in cc.FIRSTLAST])
         out.append(g)
+    # in-memory values x chunked labels, systematically: one group per (representative reduction, shape/axis)
+    reps = [r for r in cc.REDUCTIONS if r[0] in ("argmax", "nanargmin", "first", "nanlast", "sum", "median")]
+    for (f, dt), (lnd, vnd, ax) in itertools.product(reps, cc.SHAPES):
+        out.append(dict(func=f, dtype=dt, engine=rng.choice(cc.ENGINES), reindex=rng.choice(cc.REINDEX), bydask=True, lnd=lnd,
+                        vnd=vnd, axis=ax, expected=True, layout=rng.choice([l for l in cc.LAYOUTS if l != "eager"]),
+                        extra="npvalues"))
     return out
 
 
@@ -201,7 +207,7 @@ class C19(Prop):
             "(label ndim, value ndim, axis) in 14 combinations (1-D/2-D labels, 1-D..3-D values, axis None/last/first/all) x "
             "expected_groups given (+fill_value) or not x layout (in-memory, single block, sorted runs in 3-4 blocks, periodic, "
             "cohort-friendly, no requested label present, all labels missing; split_every=2 so that trees are >= 2 levels); "
-            "quick: seeded sample of 320 groups x 4 methods + 84 extras (dtype=, quantile without q, misaligned shapes, axis beyond / outside the label dims, in-memory values with chunked labels); thorough: full product of "
+            "quick: seeded sample of 320 groups x 4 methods + 84 extras (dtype=, quantile without q, misaligned shapes, axis beyond / outside the label dims, in-memory values with chunked labels; the latter also for 6 representative reductions x all 14 shape/axis options); thorough: full product of "
             "reduction x method x reindex x label kind x expected x layout, each crossed with 5 (shape/axis, engine) pairs of a "
             "seeded cyclic schedule covering all 56 pairs (21 840 cells) + 350 extras; each cell is called, then computed on "
             "the synchronous scheduler; non-trivial = reached the compute phase or was refused; distinct = distinct cell keys")
